@@ -197,4 +197,8 @@ example : parseBuf true 0 "2GIB".toList = (.initialized, 2097152) := by decide
 example : (vsnprintf 9 "ab%5dxyz".toList [Arg.num 42]).text = "ab   42x".toList := by decide
 example : (vsnprintf 8 "ab%5dxyz".toList [Arg.num 42]).text = "ab42   ".toList := by decide   -- no room to align: as the C code
 
+-- non-vacuity of `generated_strlcpy_in_bounds`: "hi" into a 2-byte buffer at 4096 keeps one character and the terminator
+example : GenL._mi_strlcpy (fun a => if a = 8192 then 104 else if a = 8193 then 105 else 0) 4096 8192 2 =
+    [("store8", [4096, 104]), ("store8", [4097, 0])] := by decide
+
 end C20
